@@ -30,7 +30,8 @@ FLAG_NAMES = {
     14: "t_mesh_notify.MTranslate", 15: "t_mesh_notify.MRotate", 16: "t_mesh_notify.MSymmetry", 17: "t_mesh_notify.MCoordSet",
     18: "t_meshset_need", 19: "t_meshset_sub", 20: "t_updmesh_need", 21: "t_bcinit", 22: "t_dirichlet", 23: "t_lagrange",
     24: "t_newton_need", 25: "t_pf_need_d", 26: "t_pf_need_u", 27: "t_pf_setiter_d", 28: "t_pf_setiter_u",
-    29: "t_pf_dmg_inval_u", 30: "t_pf_el_inval_d", 31: "t_csr_key_groups", 32: "t_csr_key_ndof", 33: "t_mass_key_group"}
+    29: "t_pf_dmg_inval_u", 30: "t_pf_el_inval_d", 31: "t_csr_key_groups", 32: "t_csr_key_ndof", 33: "t_mass_key_group",
+    34: "t_model_cache_refresh"}
 
 KEYS = {
     1: "no-need-update:_Parameter.__set__", 2: "no-notify:_IModel.Need_Update", 3: "no-need-update:_Simu._Update(model)",
@@ -45,7 +46,7 @@ KEYS = {
     24: "no-need-update:Newton-iteration", 25: "pf-flag:Need_Update(damage)", 26: "pf-flag:Need_Update(displacement)",
     27: "pf-flag:Set_Iter(damage)", 28: "pf-flag:Set_Iter(displacement)", 29: "pf-flag:damage-solve-keeps-Ku",
     30: "pf-flag:elastic-solve-keeps-Kd", 31: "cache-key:csr-map-without-groups", 32: "cache-key:csr-map-without-Ndof",
-    33: "cache-key:mass-without-group"}
+    33: "cache-key:mass-without-group", 34: "model-derived-cache-read-before-lazy-update"}
 
 # ---- real-code replays of the model witnesses (same sequences as `witness` in C14_Cache.v) ------------
 NS = {"op": "newsim", "m": 0}
@@ -92,6 +93,8 @@ REAL_WITNESS = {
     32: ("Beam", [NS, {"op": "dirichlet", "i": 0, "where": "clamp", "values": [0.0, 0.0, 0.0]}, GK, {"op": "lagrange", "i": 0, "where": "corner"}]),
     33: ("HyperElastic", HYP_PRE + [NEWMESH, SOLVE, {"op": "setmesh", "i": 0, "m": 1}]),
 }
+REAL_WITNESS[34] = [{"type": "PhaseField", "opts": {"split": sp},
+                     "ops": PF_PRE + [SOLVE, {"op": "param", "sub": True, "name": "v", "value": 0.1}]} for sp in ("He", "Zhang", "Stress", "AnisotStress")]
 for _a, _b in ((2, 1), (3, 1), (6, 1), (14, 10), (15, 11), (16, 12), (17, 13), (26, 25), (28, 27)):
     REAL_WITNESS[_a] = REAL_WITNESS[_b]
 REAL_WITNESS[14] = ("Elastic", [NS, GK, mv("Translate")])
@@ -99,11 +102,26 @@ REAL_WITNESS[15] = ("Elastic", [NS, GK, mv("Rotate")])
 REAL_WITNESS[16] = ("Elastic", [NS, GK, mv("Symmetry")])
 REAL_WITNESS[17] = ("Elastic", [NS, GK, mv("CoordSet")])
 
+# coordinate changes that are tiny w.r.t. absolute / relative tolerances: a node moved by 1e-6, a nanometre-sized mesh
+PERT = {"op": "move", "m": 0, "kind": "Perturb", "args": [0.5, 1.0e-6, -2.0e-6]}
+for _i, _k in ((11, "Rotate"), (12, "Symmetry"), (13, "CoordSet"), (15, "Rotate"), (16, "Symmetry"), (17, "CoordSet")):
+    REAL_WITNESS[_i] = [{"type": "Elastic", "ops": [NS, GK, mv(_k)]},
+                        {"type": "Elastic", "opts": {"scale": 5.0e-9}, "ops": [NS, GK, mv(_k)]}] + \
+                       ([{"type": "Elastic", "ops": [NS, GK, PERT]}] if _k == "CoordSet" else [])
+
+
+def witness_cases(i):
+    w = REAL_WITNESS[i]
+    if isinstance(w, tuple):
+        return [{"type": w[0], "ops": w[1]}]
+    return w
+
+
 REPLAY = r'''
 import json, sys
 from corr import C14_impl as H
 case = json.loads(%(case)r)
-print("simulation type:", case["type"])
+print("simulation type:", case["type"], case.get("opts", {}))
 for k, op in enumerate(case["ops"]):
     print("  op %%2d: %%s" %% (k, json.dumps(op)))
 r = H.run_case(case)
@@ -133,7 +151,7 @@ def replay_snippet(case, expflags=None, flagsmatter=False):
 
 # ---- op translation to Coq ----------------------------------------------------------------------------------
 KIND = {"Elastic": "KLin", "Thermal": "KLin", "Beam": "KLin", "PhaseField": "KPF", "HyperElastic": "KNonLin"}
-MOP = {"Translate": "MTranslate", "Rotate": "MRotate", "Symmetry": "MSymmetry", "CoordSet": "MCoordSet"}
+MOP = {"Translate": "MTranslate", "Rotate": "MRotate", "Symmetry": "MSymmetry", "CoordSet": "MCoordSet", "Perturb": "MCoordSet"}
 
 
 def coq_op(typ, op):
@@ -221,6 +239,12 @@ def run_impl(ctx, cases):
 # ---- random op sequences -------------------------------------------------------------------------------------------
 def gen_case(rng, typ, maxlen):
     ops = []
+    opts = {}
+    if typ == "PhaseField":
+        # every energy split, the ones reading derived quantities cached on the material (He, Zhang, Stress, ...) included
+        opts["split"] = rng.choice(["Bourdin", "Amor", "Miehe", "He", "He", "He", "He", "Stress", "Zhang", "AnisotStrain", "AnisotStress"])
+    if typ in ("Elastic", "Thermal") and rng.random() < 0.35:
+        opts["scale"] = rng.choice([1.0e-3, 1.0e-6, 5.0e-9, 2.0e-9])   # millimetre .. nanometre sized meshes (SI units)
     nsims = 2 if (typ in ("Elastic", "Thermal", "PhaseField") and rng.random() < 0.3) else 1
     nmesh = 1
     if nsims == 2 and rng.random() < 0.4:
@@ -248,9 +272,18 @@ def gen_case(rng, typ, maxlen):
             st[i]["lag"] = True
 
     n = rng.randint(4, maxlen)
-    while len(ops) < n:
+    # half of the sequences END with a mutation (after at least one evaluation), so that the final comparison is the
+    # FIRST evaluation after a change: caches that are stale for one evaluation only are seen there
+    tail = rng.random() < (0.7 if typ == "PhaseField" else 0.5)
+    while len(ops) < n or tail:
         i = rng.randrange(nsims)
         s = st[i]
+        if len(ops) >= n:
+            tail = False
+            if not s["solved"]:
+                ensure_dir(i)
+                ops.append({"op": "solve", "i": i})
+                s["solved"] = True
         choices = ["param", "param", "move", "move", "getk", "solve", "solve", "bc", "rho", "georead", "saveiter", "setiter", "bcinit"]
         if typ == "Elastic":
             choices += ["ray", "algo", "setmesh"]
@@ -261,6 +294,8 @@ def gen_case(rng, typ, maxlen):
         if typ == "Beam":
             choices += ["lagrange", "lagrange", "bc"]
         c = rng.choice(choices)
+        if len(ops) >= n:
+            c = rng.choice(["param", "param", "move"])
         if c == "param":
             if typ == "Elastic":
                 nm = rng.choice(["E", "v"])
@@ -268,8 +303,9 @@ def gen_case(rng, typ, maxlen):
             elif typ == "Thermal":
                 ops.append({"op": "param", "name": rng.choice(["k", "c"]), "value": pv(0.5, 9.0)})
             elif typ == "PhaseField":
-                if rng.random() < 0.5:
-                    nm = rng.choice(["E", "v"])
+                if rng.random() < 0.65:
+                    # v changes the SHAPE of C (E only scales it: scale-invariant derived quantities cannot see E)
+                    nm = rng.choice(["E", "v", "v"])
                     ops.append({"op": "param", "sub": True, "name": nm, "value": pv(1e3, 3e5) if nm == "E" else pv(0.1, 0.4)})
                 else:
                     nm = rng.choice(["Gc", "l0"])
@@ -279,12 +315,13 @@ def gen_case(rng, typ, maxlen):
             else:
                 ops.append({"op": "param", "sub": True, "name": "E", "value": pv(1e10, 3e11)})
         elif c == "move":
-            kinds = ["Translate", "Rotate", "Symmetry", "CoordSet", "CoordSet"]
+            kinds = ["Translate", "Rotate", "Symmetry", "CoordSet", "CoordSet", "Perturb", "Perturb"]
             if typ == "Beam":
                 kinds = ["Translate", "CoordSet"]  # keep the structure in its plane and orientation
             kind = rng.choice(kinds)
             m = rng.randrange(nmesh)
-            args = {"Translate": [pv(-1, 1), pv(-1, 1), 0.0], "Rotate": [float(rng.choice([30, 45, 60, 120]))], "Symmetry": [],
+            args = {"Perturb": [rng.random(), rng.choice([-1, 1]) * 10 ** rng.uniform(-7, -5), rng.choice([-1, 1]) * 10 ** rng.uniform(-7, -5)],
+                    "Translate": [pv(-1, 1), pv(-1, 1), 0.0], "Rotate": [float(rng.choice([30, 45, 60, 120]))], "Symmetry": [],
                     "CoordSet": [pv(0.6, 1.9), pv(0.6, 1.9)] if typ != "Beam" else [pv(0.8, 1.4)] * 2}[kind]
             ops.append({"op": "move", "m": m, "kind": kind, "args": args})
         elif c == "getk":
@@ -354,7 +391,32 @@ def gen_case(rng, typ, maxlen):
     # the final comparison solves: make the sequence itself well-posed so that the model sees every op
     for i in range(nsims):
         ensure_dir(i)
-    return {"type": typ, "ops": ops}
+    return {"type": typ, "ops": ops, "opts": opts}
+
+
+SPLITS = ["Bourdin", "Amor", "Miehe", "He", "Stress", "Zhang", "AnisotStrain", "AnisotStress"]
+
+
+def systematic_cases():
+    """first evaluation after ONE change, for every public parameter of every model (and every energy split):
+    [constructor; boundary conditions; Solve (non-zero state); <parameter> = new value] then compare with fresh.
+    Catches quantities cached on the observed models that are stale for one evaluation only."""
+    out = []
+    newval = {"E": 81234.5, "v": 0.12, "Gc": 4.4, "l0": 0.31, "k": 7.7, "c": 0.9, "K": 2.3e4}
+    for sp in SPLITS:
+        for sub, names in ((True, ["E", "v"]), (False, ["Gc", "l0"])):
+            for nm in names:
+                out.append({"type": "PhaseField", "opts": {"split": sp},
+                            "ops": PF_PRE + [SOLVE, {"op": "param", "sub": sub, "name": nm, "value": newval[nm]}]})
+    for typ, names, pre in (("Elastic", ["E", "v"], [NS, DIR2, LOAD, SOLVE]),
+                            ("Thermal", ["k", "c"], [NS, {"op": "dirichlet", "i": 0, "where": "left", "values": [1.0]},
+                                                     {"op": "algo", "i": 0, "kind": "parabolic", "dt": 0.1}, SOLVE]),
+                            ("HyperElastic", ["K"], [NS, DIR2, LOAD, SOLVE]),
+                            ("Beam", ["E"], BEAM_PRE + [SOLVE])):
+        for nm in names:
+            v = newval[nm] if typ != "Beam" else 1.1e11
+            out.append({"type": typ, "opts": {}, "ops": pre + [{"op": "param", "sub": typ == "Beam", "name": nm, "value": v}]})
+    return out
 
 
 def shrink(ctx, case, still_bad):
@@ -366,7 +428,7 @@ def shrink(ctx, case, still_bad):
         for k, op in enumerate(cur["ops"]):
             if op["op"] == "newsim" or (op["op"] == "dirichlet" and ndir <= 1):
                 continue
-            cands.append({"type": cur["type"], "ops": cur["ops"][:k] + cur["ops"][k + 1:]})
+            cands.append({"type": cur["type"], "opts": cur.get("opts", {}), "ops": cur["ops"][:k] + cur["ops"][k + 1:]})
         if not cands:
             break
         try:
@@ -459,27 +521,31 @@ def run(ctx):
         ctx.obligation("theorem-file-vs-diag", False, "C14_fresh.v ok=%s but failing=%s" % (r1.ok, failing))
     # 4. replays for failing entries --------------------------------------------------------------------------------------
     if failing:
-        cases = [{"type": REAL_WITNESS[i][0], "ops": REAL_WITNESS[i][1]} for i in failing]
+        alts = [(i, c) for i in failing for c in witness_cases(i)]
         try:
-            res = run_impl(ctx, cases)
+            allres = run_impl(ctx, [c for _, c in alts])
         except RuntimeError as ex:
-            res = None
+            allres = None
             ctx.obligation("witness-replay", False, str(ex))
         for n, i in enumerate(failing):
             name, key = FLAG_NAMES[i], KEYS[i]
             src = L.get(name, "?")
             model_w = bool(refuted[n])
-            if res is not None and is_bad(res[n]):
-                r = res[n]
+            mine = [(c, allres[k]) for k, (j, c) in enumerate(alts) if j == i] if allres is not None else []
+            hit = next(((c, r) for c, r in mine if is_bad(r)), None)
+            if hit is not None:
+                c, r = hit
                 detail = r["error"]["what"] if r["error"] else "; ".join(s["detail"] for s in r["sims"] if s["mismatch"])
-                ctx.violation(key, "%s (table entry %s, %s): after %s the simulation does not behave like a freshly built one: %s" % (
-                    key, name, src, [o["op"] + (":" + o["kind"] if "kind" in o else "") for o in cases[n]["ops"]], detail[:300]),
-                    {"replay_py": replay_snippet(cases[n]), "table_entry": name, "source": src, "model_witness_refutes": model_w,
-                     "ops": cases[n]["ops"], "impl": {"error": r["error"], "sims": r["sims"]}}, found_input=True)
+                ctx.violation(key, "%s (table entry %s, %s): after %s%s the simulation does not behave like a freshly built one: %s" % (
+                    key, name, src, [o["op"] + (":" + o["kind"] if "kind" in o else "") for o in c["ops"]],
+                    " (%s)" % c["opts"] if c.get("opts") else "", detail[:300]),
+                    {"replay_py": replay_snippet(c), "table_entry": name, "source": src, "model_witness_refutes": model_w,
+                     "ops": c["ops"], "opts": c.get("opts", {}), "impl": {"error": r["error"], "sims": r["sims"]}}, found_input=True)
             else:
-                ctx.violation(key, "%s (table entry %s, %s): the invariant proof no longer goes through for this mutator; the model witness %s, but on the real code the witness sequence gives values identical to a fresh simulation" % (
-                    key, name, src, "is stale" if model_w else "is not stale either"),
-                    {"replay_py": replay_snippet(cases[n]), "table_entry": name, "source": src, "obligation": "C14_table_ok", "ops": cases[n]["ops"]}, found_input=False)
+                c = witness_cases(i)[0]
+                ctx.violation(key, "%s (table entry %s, %s): the invariant proof no longer goes through for this mutator; the model witness %s, but on the real code the %d witness sequence(s) tried give values identical to a fresh simulation" % (
+                    key, name, src, "is stale" if model_w else "is not stale either", len(mine)),
+                    {"replay_py": replay_snippet(c), "table_entry": name, "source": src, "obligation": "C14_table_ok", "ops": c["ops"]}, found_input=False)
     elif not r1.ok:
         ctx.violation("proof-broken:C14_fresh.v", "C14_fresh.v no longer checks although every table entry is as required", {"log": r1.log[-3000:]}, found_input=False)
     # 5. correspondence -------------------------------------------------------------------------------------------------------
@@ -487,6 +553,9 @@ def run(ctx):
     weights = [("Elastic", 30), ("Thermal", 20), ("PhaseField", 20), ("HyperElastic", 12), ("Beam", 18)]
     types = [t for t, w in weights for _ in range(w)]
     cases = [gen_case(ctx.rng, ctx.rng.choice(types), 12) for _ in range(ncases)]
+    syst = systematic_cases()
+    cases += syst
+    ctx.cov["corr_systematic_cases"] = len(syst)
     try:
         impl = run_impl(ctx, cases)
         pred = model_traces(ctx, cases, "C14_cases")
@@ -499,6 +568,8 @@ def run(ctx):
     flag_bad, unexplained, harness_err = [], [], []
     for c, r, p in zip(cases, impl, pred):
         dist[c["type"]] = dist.get(c["type"], 0) + 1
+        for ok_, ov_ in c.get("opts", {}).items():
+            dist["%s=%s" % (ok_, ov_)] = dist.get("%s=%s" % (ok_, ov_), 0) + 1
         kinds = sorted(set(o["op"] for o in c["ops"]))
         # (b) flags after every op
         for k, fl in enumerate(r["flags"]):
@@ -559,9 +630,9 @@ def run(ctx):
         seen.add(key)
         ctx.violation(key, "%s simulation differs from a freshly built one after %s, although the model (with the table derived from source) predicts a fresh state: %s" % (
             c["type"], [o["op"] for o in small["ops"]], what[:300]),
-            {"replay_py": replay_snippet(small), "ops": small["ops"], "original_ops": c["ops"]}, found_input=True)
+            {"replay_py": replay_snippet(small), "ops": small["ops"], "opts": small.get("opts", {}), "original_ops": c["ops"]}, found_input=True)
     for c, k, fl, pf in flag_bad[:3]:
-        pre = {"type": c["type"], "ops": c["ops"][:k + 1]}
+        pre = {"type": c["type"], "opts": c.get("opts", {}), "ops": c["ops"][:k + 1]}
         key = "flag-prediction:%s:%s" % (c["type"], c["ops"][k]["op"])
         if key in seen:
             continue
